@@ -43,7 +43,7 @@ M = [
  ("M28", ["C18"], "shuttle-engine/src/future/batch_semaphore.rs", "            self.semaphore.release(self.waiter.num_permits);\n        }\n    }\n}", "            let _ = self.waiter.num_permits;\n        }\n    }\n}", "an Acquire dropped after being granted does not give its permits back"),
  ("M29", ["C12"], "shuttle-engine/src/runtime/failure.rs", "        FailurePersistence::None => {}\n", "        FailurePersistence::None => {\n            let serialized_schedule = serialize_schedule(&CurrentSchedule::get_schedule());\n            eprintln!(\"failing schedule:\\n\\\"\\n{serialized_schedule}\\n\\\"\\npass that string to `shuttle::replay` to replay the failure\");\n        }\n", "a schedule is printed although persistence is disabled"),
  ("M30", ["C08", "C03"], "shuttle-engine/src/runtime/execution.rs", "            if is_runnable {\n                all_runnable_detached &= task.detached;\n                self.runnable_tasks.push(task as *const Task);", "            if is_runnable && task_id.0 != 2 {\n                all_runnable_detached &= task.detached;\n                self.runnable_tasks.push(task as *const Task);", "task 2 is never offered to the scheduler"),
- ("M31", ["C04", "C03"], "shuttle-std/src/sync/rwlock.rs", "                    acquired = readers.insert(me);", "                    readers.insert(me);", "re-entrant try_read succeeds"),
+ ("M31", ["C04", "C03"], "shuttle-std/src/sync/rwlock.rs", "        if reentrant_read {", "        if reentrant_read && false {", "re-entrant try_read takes a permit before failing (the defect repaired by 21dcfba)"),
  ("M32", ["C06"], "shuttle-std/src/sync/mpsc.rs", "        let item = state.messages.remove(0);", "        let n = state.messages.len();\n        let item = state.messages.remove(n - 1);", "receive takes the newest message (LIFO)"),
  ("M33", ["C14", "C05"], "shuttle-std/src/sync/once.rs", "        StorageKey(once.id(), 0x2)", "        StorageKey(1, 0x2)", "all Once cells share one state slot"),
  ("M34", ["C01"], "shuttle-schedulers/src/replay.rs", "            ScheduleStep::Random => {\n                self.steps += 1;\n                self.data_source.next_u64()\n            }", "            ScheduleStep::Random => {\n                self.steps += 1;\n                self.data_source.next_u64() ^ 1\n            }", "replayed random draws differ in the lowest bit"),
